@@ -1,4 +1,5 @@
 import Cirbo.Proofs.DictIO
+import Cirbo.Proofs.CodecRT
 import Cirbo.Model.Codec
 /-!
 # C16 — The database codec never silently changes a circuit
@@ -8,7 +9,10 @@ import Cirbo.Model.Codec
 -- OBLIGATION: c16_dict_roundtrip
 -- OBLIGATION: c16_dict_truncated
 -- OBLIGATION: c16_dict_trailing
--- PARTIAL: circuit level (encode_circuit / decode_circuit): the model (Model/Codec.lean: word size, dependency-order enumeration, token stream, decoder with add_gate/mark_as_output) is compared byte for byte with the code on every run and the implementation's round trip is checked on every generated circuit, but the theorem `decode (encode c) ≅ c` for all format-conforming circuits is not proved yet; only its bit-level and dictionary-level ingredients below are.
+-- OBLIGATION: c16_enumeration_order
+-- OBLIGATION: c16_circuit_roundtrip
+-- OBLIGATION: c16_circuit_roundtrip_same_function
+-- PARTIAL: the circuit-level round trip is proved for every well-formed circuit the encoder accepts (whatever its gate storage order). Which circuits the encoder accepts (gate types with an id, arities, word size) and that malformed byte strings are rejected with the documented errors are decided by the correspondence (the model is compared byte for byte with the code on every run).
 -/
 namespace Cirbo
 
@@ -37,6 +41,34 @@ theorem c16_dict_truncated (d : BDict) {bs : List Nat} (hw : writeDict d = some 
 theorem c16_dict_trailing (d : BDict) {bs : List Nat} (hw : writeDict d = some bs) (x : Nat) (t : List Nat) :
     readDict (bs ++ x :: t) = none := readDict_trailing d hw x t
 
+/-- `_enumerate_gates` on a well-formed circuit, whatever its internal gate order: every gate exactly
+once, the inputs first in input order, every gate after all of its operands (its step budget is
+never exhausted). -/
+theorem c16_enumeration_order {c : Circuit} (hw : WFS c) : EnumOK c (enumerateGates c) :=
+  enumerateGates_ok hw.nodup hw.closed hw.rank hw.inputsNodup (by
+    intro l hl
+    obtain ⟨g, hg, hgl, hty⟩ := (hw.inputsOK l).mp hl
+    exact ⟨g, hg, hgl, hw.inputOps g hg hty⟩)
+
+/-- **Circuit level**: for every well-formed circuit the encoder accepts, decoding the produced bytes
+succeeds and returns the same circuit with every label `l` replaced by `gate_<position of l in the
+dependency-order enumeration>`: the gates in enumeration order with renamed operands, the inputs and
+the outputs renamed position by position (the enumeration is a bijection onto the labels). -/
+theorem c16_circuit_roundtrip {c : Circuit} (hw : WFS c) {bytes : List Nat} (he : encodeCircuit c = .ok bytes) :
+    ∃ D, decodeCircuit bytes = .ok D ∧
+      D.gates = ((enumerateGates c).filterMap c.find?).map (renC (enumerateGates c)) ∧
+      D.inputs = c.inputs.map (fun l => gateLabel ((enumerateGates c).idxOf l)) ∧
+      D.outputs = c.outputs.map (fun l => gateLabel ((enumerateGates c).idxOf l)) ∧
+      (enumerateGates c).Nodup ∧ (∀ l, l ∈ enumerateGates c ↔ l ∈ c.labels) :=
+  codec_roundtrip hw he
+
+/-- hence the decoded circuit has as many inputs and outputs and computes the same function -/
+theorem c16_circuit_roundtrip_same_function {c : Circuit} (hw : WFS c) {bytes : List Nat}
+    (he : encodeCircuit c = .ok bytes) :
+    ∃ D, decodeCircuit bytes = .ok D ∧ D.inputs.length = c.inputs.length ∧ D.outputs.length = c.outputs.length ∧
+      ∀ b v, IsValB c b v → ∃ b' v', IsValB D b' v' ∧ D.inputs.map b' = c.inputs.map b ∧ D.outputs.map v' = c.outputs.map v :=
+  codec_roundtrip_function hw he
+
 /-! Non-vacuity -/
 example : writeDict [([0xc3, 0xa9], [1, 2, 3]), ([], [])] =
     some [0,0,0,0,0,0,0,2, 0,2,0xc3,0xa9, 0,3,1,2,3, 0,0, 0,0] := by decide
@@ -47,5 +79,8 @@ example : keysNodup [([0xc3, 0xa9], [1, 2, 3]), ([], [])] := by unfold keysNodup
 #print axioms c16_dict_roundtrip
 #print axioms c16_dict_truncated
 #print axioms c16_dict_trailing
+#print axioms c16_enumeration_order
+#print axioms c16_circuit_roundtrip
+#print axioms c16_circuit_roundtrip_same_function
 
 end Cirbo
